@@ -12,4 +12,17 @@ CHECKS = {
         technique="Coq proof over translator-generated Gallina model + exact vm_compute correspondence",
         design="4/C10"),
 }
+CHECKS["C15"] = dict(
+    text=("Theorems (Coq, all n, n_landmarks, landmark counts, ranks int/float/None, all 5 types and every name string) about the "
+          "Gallina functions regenerated each run from compute_rank/compute_n_landmarks/compute_gp_type/validate_params(+3 helpers)/"
+          "from_string/compute_landmarks/compute_Lp/compute_conditional/_predictor_landmarks: closed form of the whole resolution pipeline, "
+          "refused-or-exactly-one-consistent-type, documented inference rules, name matching, predictor class = family of the type; "
+          "the pipeline model is executed in Coq on the exhaustive 6336-point grid of the property text against the real estimator "
+          "objects (exact comparison) and on real fits."),
+    note=("Trusted: Coq kernel; translator; hand model of _prepare_attribute and of FunctionEstimator.__init__'s rank/nystroem rule (tied by the "
+          "exhaustive correspondence); k_means/_full_rank opaque. The shape-and-kind model of the constructors planned in DESIGN.md was "
+          "replaced by real fits (sampled, stratified): internal errors inside constructors are found by execution, not by theorem. "
+          "Two FunctionEstimator findings are listed in known_findings.jsonl."),
+    technique="Coq proof over translator-generated Gallina model + exhaustive exact vm_compute correspondence + real fits",
+    design="4/C15")
 NOT_YET = {}
